@@ -510,10 +510,11 @@ func (p *sessionPort) exec(f []string) []string {
 			p.cur.mu.Unlock()
 		}
 		return nil
-	case "cpol": // cpol g : Close of the current connection takes effect only at `cgo`
+	case "cpol": // cpol g : Close of the current connection takes effect only at `cgo`; cpol e : Close reports an error
 		if p.cur != nil {
 			p.cur.mu.Lock()
 			p.cur.closeGate = f[1] == "g"
+			p.cur.closeErr = f[1] == "e"
 			p.cur.mu.Unlock()
 		}
 		return nil
